@@ -293,7 +293,7 @@ def describe_prefix(site, info, title: str):
             return kind + how, (
                 f"prefix {p!r} is the {kind}{how} of namespace {e['id']} (canonical {e['canonical']!r}, local {e['local']!r}, "
                 f"aliases {e['aliases']!r}) in the namespace table of lang_code={site['lang']!r}")
-    return "no prefix", f"no namespace prefix (lang_code={site['lang']!r})"
+    return "no prefix", f"the title is written without a namespace prefix (lang_code={site['lang']!r})"
 
 
 def start_sites(plan, tier):
@@ -381,7 +381,7 @@ def _finish_sites(o: Outcome, h):
             o.violation(
                 {"kind": "S", "lang": r["key"], "namespaces": site["namespaces"], "hist": r["hist"], "mode": r["mode"], "first_bad": b},
                 (f"{call}({', '.join(repr(x) for x in b['call'][1:])}) returned {b['got']!r}, the specification requires {b['expected']!r} "
-                 f"({b['where']}): a lookup must not depend on how the namespace prefix is written; {spelled}") if b["call"] else
+                 f"({b['where']}): a lookup returns the stored page however the namespace prefix is written; {spelled}") if b["call"] else
                 f"exception {b['got']} while replaying a history with lang_code={r['key']!r}",
                 cls=f"S:{call}:{kind}:" + re.sub(r"[0-9]+", "N", b["where"]),
             )
@@ -676,6 +676,9 @@ def run(tier: str) -> int:
     o.assumptions = [
         "titles are added with spaces (never underscores) and with the canonical prefix or none, as dumps do",
         "TLC 1.8 + CommunityModules Json/IOUtils; SQLite as shipped with /venv python",
+        "letter case of namespace names is a table handed to TLC (Python str.lower, '_' = ' '); spellings whose lower()/casefold() "
+        "differ from the name's (dotless i, sharp s ...) are not in the universe; the canonical (English) name of a namespace counts "
+        "as a spelling of its prefix on every site",
     ]
     thorough = tier == "thorough"
     sites = start_sites(site_plan(tier), tier)   # TLC runs of the namespace-table engine, beside the others
